@@ -121,6 +121,24 @@ var advTemplates = []advTemplate{
 		b := []string{`""`, `"-"`, `""`}[g.Choose(3)]
 		return `return #string.rep(` + a + `, ` + bigN(g) + `, ` + b + `)`
 	}},
+	{"range-over-nothing", func(g *core.Tape) string {
+		// index ranges far beyond a small (or empty) table or string: nothing to build, so nothing is
+		// charged for memory - the walk itself has to be metered or refused
+		n := bigN(g)
+		calls := []string{
+			`table.move({}, 1, N, 1)`, `table.move({}, 1, N, 2, {})`, `table.move({1, 2, 3}, N, 1, 1)`,
+			`table.concat({}, "", 1, N)`, `table.concat({"a"}, "", 1, N)`, `table.unpack({}, 1, N)`, `table.unpack({}, -N, 0)`,
+			`string.byte("", 1, N)`, `string.byte("abc", -N, N)`, `("x"):sub(-N, N)`, `string.rep("", N)`, `string.rep("", N, "")`,
+			`utf8.codepoint("", 1, N)`, `utf8.len("", 1, N)`, `utf8.offset("abc", N)`, `utf8.offset("abc", -N)`, `utf8.char()`,
+			`table.remove({}, N)`, `table.insert({}, N, 1)`, `select(N, 1)`, `select(-N, 1)`, `math.random(1, N)`,
+			`string.gsub("", "", "", N)`, `("xxx"):gsub("", "", N)`, `("x"):find("", N)`, `("x"):find("", -N, true)`, `string.format("%s", ""):rep(N)`,
+			`next({}, nil)`, `rawlen({})`, `#setmetatable({}, {__len = function() return N end})`, `table.concat(setmetatable({}, {__len = function() return N end, __index = function() return "" end}))`,
+			`table.unpack(setmetatable({}, {__len = function() return N end}))`, `table.sort(setmetatable({}, {__len = function() return N end, __index = function() return 1 end, __newindex = function() end}))`,
+			`table.move(setmetatable({}, {__index = function() return 0 end}), 1, N, 1, setmetatable({}, {__newindex = function() end}))`,
+		}
+		c := calls[g.Choose(len(calls))]
+		return `local N = math.tointeger(` + n + `) or ` + n + ` return ` + c
+	}},
 	{"string-rep-rep", func(g *core.Tape) string { return `return #(("x"):rep(1e4):rep(` + bigN(g) + `))` }},
 	{"string-format-width", func(g *core.Tape) string {
 		return `return #string.format("%99d%99d%99d", 1, 2, 3):rep(` + bigN(g) + `)`
@@ -457,7 +475,7 @@ func runQuotaAdv(ctx *core.RunCtx) {
 	if ms1.HeapSys > ms0.HeapSys {
 		grown = ms1.HeapSys - ms0.HeapSys
 	}
-	if maxSys := 16*memL + 128<<20; grown > maxSys {
+	if maxSys := 64*memL + 128<<20; grown > maxSys {
 		ctx.Fail(prop, prop+".M3", "heap-growth:"+sig, "the Go heap of the process grew by %d bytes under memory limit %d (bound %d); %s", grown, memL, maxSys, where)
 		return
 	}
